@@ -9,6 +9,7 @@ package app
 import (
 	"fmt"
 	"os"
+	"sort"
 	"testing"
 	"testing/synctest"
 	"time"
@@ -73,6 +74,84 @@ func c16qRun(in c16qIn, haOnly bool) (lost bool, ha []string) {
 	return !va.app.lostQuorumTime.IsZero(), va.app.cluster.HANodeHosts()
 }
 
+type c16cntHost struct {
+	Host    string `json:"host"`
+	Ping    bool   `json:"ping"`
+	Dubious bool   `json:"dubious"`
+	Cascade bool   `json:"cascade"`
+	Repl    string `json:"repl"` // none | master | running | stopped | error
+}
+type c16cntIn struct {
+	Nodes []string     `json:"nodes"`
+	State []c16cntHost `json:"state"`
+}
+
+func c16StateJSON(cs map[string]*nodestate.NodeState) []c16cntHost {
+	var r []c16cntHost
+	for h, st := range cs {
+		c := c16cntHost{Host: h, Ping: st.PingOk, Dubious: st.PingDubious, Cascade: st.IsCascade, Repl: "none"}
+		if st.IsMaster {
+			c.Repl = "master"
+		}
+		if st.SlaveState != nil {
+			switch st.SlaveState.ReplicationState {
+			case mysql.ReplicationRunning:
+				c.Repl = "running"
+			case mysql.ReplicationStopped:
+				c.Repl = "stopped"
+			default:
+				c.Repl = "error"
+			}
+		}
+		r = append(r, c)
+	}
+	sort.Slice(r, func(i, j int) bool { return r[i].Host < r[j].Host })
+	return r
+}
+
+func c16StateOf(l []c16cntHost) map[string]*nodestate.NodeState {
+	cs := map[string]*nodestate.NodeState{}
+	for _, c := range l {
+		st := &nodestate.NodeState{PingOk: c.Ping, PingDubious: c.Dubious, IsCascade: c.Cascade, IsMaster: c.Repl == "master"}
+		switch c.Repl {
+		case "running":
+			st.SlaveState = &nodestate.SlaveState{ReplicationState: mysql.ReplicationRunning}
+		case "stopped":
+			st.SlaveState = &nodestate.SlaveState{ReplicationState: mysql.ReplicationStopped}
+		case "error":
+			st.SlaveState = &nodestate.SlaveState{ReplicationState: mysql.ReplicationError}
+		}
+		cs[c.Host] = st
+	}
+	return cs
+}
+
+// c16CountsJudge: the HA counts of the real functions against the same questions about the state without the cascade replicas
+func c16CountsJudge(m *vk.Meta, nodes []string, cs map[string]*nodestate.NodeState) (ha, running, within int, dub []string) {
+	ha, running, within, dub = countHANodes(cs), countRunningHASlaves(cs), countAliveHASlavesWithinNodes(nodes, cs), getDubiousHAHosts(cs)
+	sort.Strings(dub)
+	m.Evaluations++
+	ha2 := map[string]*nodestate.NodeState{}
+	for h, st := range cs {
+		if !st.IsCascade {
+			ha2[h] = st
+		}
+	}
+	dub2 := getDubiousHAHosts(ha2)
+	sort.Strings(dub2)
+	if ha != countHANodes(ha2) || running != countRunningHASlaves(ha2) || within != countAliveHASlavesWithinNodes(nodes, ha2) || fmt.Sprint(dub) != fmt.Sprint(dub2) {
+		m.Violation("cascade replicas are never counted towards quorum", map[string]any{"counts": c16cntIn{Nodes: nodes, State: c16StateJSON(cs)}},
+			fmt.Sprintf("HA nodes %d / running %d / alive within the list %d / dubious %v; without the cascade replicas %d / %d / %d / %v", ha, running, within, dub,
+				countHANodes(ha2), countRunningHASlaves(ha2), countAliveHASlavesWithinNodes(nodes, ha2), dub2))
+	}
+	return
+}
+
+// c16StatesGal: node states with a replica status that has the thread flags of the replication state
+func c16StatesGal(cs map[string]*nodestate.NodeState) string {
+	return statesGal(cs)
+}
+
 func TestVerifC16Quorum(t *testing.T) {
 	o := vk.Open()
 	m := vk.NewMeta()
@@ -90,6 +169,14 @@ func TestVerifC16Quorum(t *testing.T) {
 		}
 		_, db, dc := c16qViews(in, false)
 		return vk.T(hostsGal(ha), statesGal(db), statesGal(dc), vk.B(lost))
+	}
+	var rpc struct {
+		Counts *c16cntIn `json:"counts"`
+	}
+	if vk.ReplayInput(&rpc) && rpc.Counts != nil {
+		c16CountsJudge(m, rpc.Counts.Nodes, c16StateOf(rpc.Counts.State))
+		o.WriteMeta("c16q", m)
+		return
 	}
 	var rp c16qIn
 	if vk.ReplayInput(&rp) {
@@ -125,6 +212,36 @@ func TestVerifC16Quorum(t *testing.T) {
 		m.Cases["c16q"] = append(m.Cases["c16q"], in)
 		dist.Add(fmt.Sprintf("%+v", in))
 	}
+	// the HA counts of util.go over states with cascade replicas, also named in the node list
+	var cnt []string
+	for i := 0; i < n; i++ {
+		cs := map[string]*nodestate.NodeState{}
+		var nodes []string
+		nh := 2 + r.Intn(5)
+		for k := 1; k <= nh; k++ {
+			h := fmt.Sprintf("h%d", k)
+			st := &nodestate.NodeState{PingOk: r.Intn(4) != 0, PingDubious: r.Intn(3) == 0, IsCascade: r.Intn(3) == 0}
+			switch r.Intn(4) {
+			case 0:
+				st.IsMaster = true
+			case 1:
+				st.SlaveState = &nodestate.SlaveState{ReplicationState: mysql.ReplicationRunning}
+			case 2:
+				st.SlaveState = &nodestate.SlaveState{ReplicationState: mysql.ReplicationStopped}
+			case 3:
+				st.SlaveState = &nodestate.SlaveState{ReplicationState: mysql.ReplicationError}
+			}
+			if r.Intn(8) != 0 {
+				cs[h] = st
+			}
+			if r.Intn(3) != 0 {
+				nodes = append(nodes, h)
+			}
+		}
+		ha, running, within, dub := c16CountsJudge(m, nodes, cs)
+		cnt = append(cnt, vk.T(hostsGal(nodes), c16StatesGal(cs), vk.Z(int64(ha)), vk.Z(int64(running)), vk.Z(int64(within)), hostsGal(dub)))
+	}
+	o.CasesFile("c16cnt", []string{"Gtid.GtidSet", "Base.Prog", "Base.Config", "Procs.NodeOps", "Procs.MgrQuorum", "Corr.C13", "Corr.MgrQuorum"}, "cnt_case", cnt, "mismatches_cnt")
 	o.CasesFile("c16q", []string{"Gtid.GtidSet", "Base.Prog", "Base.Config", "Procs.NodeOps", "Procs.MgrQuorum", "Corr.MgrQuorum"}, "mq_case", cases, "mismatches_mq")
 	m.DistinctNontrivial = dist.Len()
 	m.Rule = "1-5 HA hosts and 0-4 cascade replicas in the real registry; for each host the manager's own view and the health record are absent / ping failed / ping ok; the real checkQuorum (first call) against manager_lost_quorum, and against itself with the cascade replicas removed from both views; distinct = distinct inputs"
